@@ -8,12 +8,14 @@ package getoptions
 
 import (
 	"math"
+	"os"
 	"strconv"
 	"strings"
 )
 
 func vNativeReset() {
 	Writer = vWriter("Writer")
+	os.Args = []string{"prog"} // the program name shown in help texts
 }
 
 const (
